@@ -2,6 +2,7 @@ import JsonPathVerif.Lex.Int
 import JsonPathVerif.Lex.Names
 import JsonPathVerif.Lex.Tokens
 import JsonPathVerif.ParserWT
+import JsonPathVerif.ParserRG
 import JsonPathVerif.Parser
 import JsonPathVerif.Validity
 /-! # C07 – every string that is not a valid RFC 9535 query is rejected (lexical layers on the GENERATED grammar) -/
@@ -51,6 +52,14 @@ value-returning function is never a test expression and a logical one never a co
 builder of `parser.rs` can be handed (`builderWT`), hence independent of the grammar. -/
 theorem C07_partial_typing (s : Str) (q : List Segment) (h : parseJsonPath s = .ok q) : Spec.wtSegs q = true :=
   parse_wellTyped s q h
+
+/-- integer range, for ALL strings: every integer of an index selector, a slice bound or step, or a singular-query index of an
+accepted query lies in the I-JSON range ±(2^53-1) (again for every pair tree the builder can be handed) -/
+theorem C07_partial_int_range (s : Str) (q : List Segment) (h : parseJsonPath s = .ok q) : rgSegs q = true :=
+  parse_intsInRange s q h
+
+example : rgSegs [.selector (.index 9007199254740992)] = false ∧ rgSegs [.selector (.slice none (some (-9007199254740991)) none)] = true ∧
+    rgSegs [.selector (.filter (.atom (.cmp .eq (.sq false [.index (-9223372036854775808)]) (.lit .null))))] = false := by decide
 
 /-- the typing discipline is not vacuous: the ill-typed ASTs of defect D15 are rejected by `Spec.wtSegs` -/
 example : Spec.wtSegs [.selector (.filter (.atom (.cmp .eq (.fn (.length (.test (.rel [.selector .wildcard])))) (.lit (.int 2)))))] = false ∧
